@@ -56,8 +56,12 @@ class BAMOnlineMerger:
         self.start = start
         self.end = end
         # fetch uses 0-based semi-closed interval
-        self.alignment_iterators = [bp[0].fetch(self.chr_id, self.start, self.end + 1,
-                                                multiple_iterators=self.multiple_iterators) for bp in self.bam_pairs]
+        # placed unmapped records (flag 4 with RNAME/POS) are returned by fetch as well; they carry no alignment
+        # (reference_end is None) and are left out
+        self.alignment_iterators = [filter(lambda a: not a.is_unmapped,
+                                           bp[0].fetch(self.chr_id, self.start, self.end + 1,
+                                                       multiple_iterators=self.multiple_iterators))
+                                    for bp in self.bam_pairs]
         self.current_elements = PriorityQueue(len(self.alignment_iterators))
         for i, it in enumerate(self.alignment_iterators):
             try:
